@@ -94,7 +94,7 @@ func c15JudgeA(tb vt.TB, spec *c15Spec) (cut bool) {
 	// leg 1: the file set loads and gives the chart the intent describes
 	c0, err := c15LoadFlat(flat)
 	if err != nil {
-		return fail("C15:valid-chart-rejected/load-files", "LoadFiles: "+err.Error())
+		return fail(c15ErrSig("C15:chart-not-loadable", "load-files", err), "LoadFiles: "+err.Error())
 	}
 	var diffs []c15Diff
 	c15Compare(want, c15SnapOf(c0), "load-files", want.Name, &diffs)
@@ -596,7 +596,15 @@ func c15JudgeC(tb vt.TB, c *c15CaseC) (cut bool, labels []string, nontrivial boo
 		p.Destination = out
 		p.Version = c.FlagVersion
 		effVersion = c.FlagVersion
-		verClass = c15VersionClass(c.FlagVersion)
+		// the chart on disk must itself be loadable; the flag then replaces its version
+		switch base, flag := c15VersionClass(c.Version), c15VersionClass(c.FlagVersion); {
+		case base == "invalid" || flag == "invalid":
+			verClass = "invalid"
+		case base == "valid" && flag == "valid":
+			verClass = "valid"
+		default:
+			verClass = "unclear"
+		}
 		produced, runErr = p.Run(src, nil)
 	default:
 		tb.Fatalf("unknown route %q", c.Route)
